@@ -49,10 +49,17 @@ def r15g(rep, prog):
 
 
 def r15f(rep, prog):
-    """the bounded BFS answers `true` only for a vertex popped within the hop bound: either the `return true` is
-    guarded by d_u <= max_hops for the popped vertex, or no vertex beyond the bound is ever queued"""
+    """the bounded BFS answers `true` only for a vertex within the hop bound.  Conditions over the hop bound h are evaluated over
+    the four regions of the popped vertex's distance d_u:  A: d_u + 1 < h,  B: d_u + 1 == h,  E: d_u == h,  G: d_u > h.
+    * `return true` for the popped vertex needs d_u <= h: either its guards exclude G, or no vertex beyond the bound is queued
+      (every non-source push only in A or B);
+    * `return true` for a neighbour discovered from the popped vertex (one hop further) needs d_u < h: either its guards exclude
+      E and G, or every queued vertex is closer than h (non-source pushes only in A, the source queued only when h != 0)."""
+    import itertools
+    from .c10 import guards_formula
     what = 'is_bfs_reachable answers true only when the target is within max_hops'
     n = 0
+    REG = ('A', 'B', 'E', 'G')
     for fn in prog.fns('parmcb::is_bfs_reachable'):
         n += 1
         cfg = fn.cfg
@@ -63,8 +70,13 @@ def r15f(rep, prog):
         if not trues or hparam is None:
             rep.undecided('R15f', fn.body, fn, what, 'no `return true` / no hop parameter')
             continue
+        A, B, E, G = [ex.f_atom(x) for x in REG]
 
-        new_dist_tests = []
+        def f_any(*xs):
+            r = xs[0]
+            for x in xs[1:]:
+                r = ex.f_or(r, x)
+            return r
 
         def atomize(leaf):
             s = leaf.strip_all()
@@ -76,6 +88,12 @@ def r15f(rep, prog):
                 elif ex.var_of(a) == hparam and ex.var_of(b) is not None:
                     op = {'<': '>', '<=': '>=', '>': '<', '>=': '<='}[op]
                     a, b = b, a
+                elif ex.var_of(a) == hparam and a is not None and b.strip_all().cv == 0 and op in ('>', '<='):
+                    f = ex.f_atom('h0')
+                    return ex.f_not(f) if op == '>' else f
+                elif ex.var_of(b) == hparam and a.strip_all().cv == 0 and op in ('<', '>='):
+                    f = ex.f_atom('h0')
+                    return ex.f_not(f) if op == '<' else f
                 else:
                     return None
                 dv = ex.var_of(a)
@@ -83,99 +101,110 @@ def r15f(rep, prog):
                 # d_u must be the distance of the vertex just popped
                 if d is None:
                     return None
-                # a variable defined as combine(d_u, 1) / d_u + 1 is the distance of the vertex being discovered: its test
-                # `c <= max_hops` says d_u < max_hops
+                # a variable defined as combine(d_u, 1) / d_u + 1 is the distance of the vertex being discovered
                 dd = d.strip_all()
                 plus1 = (dd.k in ('BinaryOperator',) and dd.op == '+' and (dd.c[0].strip_all().cv == 1 or dd.c[1].strip_all().cv == 1)) or \
                     (dd.k in ex.CALL_KINDS and len(dd.c) >= 2 and dd.c[-1].strip_all().cv == 1 and any(ex.var_of(x) is not None for x in dd.c[1:-1]))
-                lt, eq, gt = ex.f_atom('lt'), ex.f_atom('eq'), ex.f_atom('gt')
                 if plus1:
-                    # (d_u + 1) op h  over the orderings of d_u vs h:  d_u+1 < h iff d_u < h-1 (finer than the three orderings): approximate
-                    # soundly for the use below - `<=`/`>` are exact: d_u + 1 <= h  iff  d_u < h
-                    if op == '<=':
-                        return lt
-                    if op == '>':
-                        return ex.f_or(eq, gt)
-                    return None
-                new_dist_tests.append(leaf)
-                return {'<': lt, '<=': ex.f_or(lt, eq), '>': gt, '>=': ex.f_or(gt, eq)}[op]
+                    return {'<': A, '<=': f_any(A, B), '>': f_any(E, G), '>=': f_any(B, E, G)}[op]
+                return {'<': f_any(A, B), '<=': f_any(A, B, E), '>': G, '>=': f_any(E, G)}[op]
             if s.k == 'BinaryOperator' and s.op in ('==', '!=') and sparam is not None and {ex.var_of(s.c[0]), ex.var_of(s.c[1])} == {sparam, tparam}:
                 f = ex.f_atom('s_is_t')
                 return f if s.op == '==' else ex.f_not(f)
             if s.k == 'BinaryOperator' and s.op in ('==', '!=') and (ex.var_of(s.c[0]) == tparam or ex.var_of(s.c[1]) == tparam):
                 f = ex.f_atom('is_t')
                 return f if s.op == '==' else ex.f_not(f)
+            if s.k == 'BinaryOperator' and s.op in ('==', '!=') and hparam in (ex.var_of(s.c[0]), ex.var_of(s.c[1])) and \
+                    0 in (s.c[0].strip_all().cv, s.c[1].strip_all().cv):
+                f = ex.f_atom('h0')
+                return f if s.op == '==' else ex.f_not(f)
             return None
-        from .c10 import guards_formula
+
+        def reach(f, region=None, **fixed):
+            """is f satisfiable with d_u in `region` (None: regions unconstrained atoms absent)"""
+            atoms = ex.f_atoms(f)
+            others = [a_ for a_ in atoms if a_ not in REG and a_ not in fixed]
+            for vals in itertools.product((False, True), repeat=len(others)):
+                envv = dict(zip(others, vals))
+                envv.update({r_: (r_ == region) for r_ in REG})
+                envv.update(fixed)
+                if ex.f_eval(f, envv):
+                    return True
+            return False
+
+        def has_regions(f):
+            return any(a_ in REG for a_ in ex.f_atoms(f))
+
+        def opaque_atoms(f):
+            return [a_ for a_ in ex.f_atoms(f) if isinstance(a_, tuple)]
+
+        def neighbour_var(v):
+            ds = ex.assignments_to(fn, v) if v is not None else []
+            for (_, rhs) in ds:
+                r_ = rhs.strip_all() if rhs is not None else None
+                if r_ is not None and r_.k == 'CallExpr' and r_.callee and r_.callee['g'] in ('boost::target', 'boost::opposite', 'boost::source'):
+                    return True
+            return False
+        pushes = [x for x in fn.walk() if x.k == 'CXXMemberCallExpr' and x.callee and x.callee['name'] in ('push', 'push_back', 'emplace', 'emplace_back')
+                  and (prog.base_type(x.object_arg().strip_all().j.get('t')) or {}).get('rec') in ('std::queue', 'std::deque', 'std::list', 'std::vector')
+                  and x.args() and 'tuple' not in ((prog.base_type(x.args()[0].strip_all().j.get('t')) or {}).get('canon') or '')]
         for rt in trues:
             f = guards_formula(cfg, rt, atomize)
             atoms = ex.f_atoms(f)
-            # orderings of d_u vs max_hops: exactly one of lt/eq/gt
-            import itertools
-            ok_all = True
-            if 's_is_t' in atoms:
-                rest = [a for a in atoms if a != 's_is_t']
-                if not any(ex.f_eval(f, dict(zip(rest, vals), s_is_t=False)) for vals in itertools.product((False, True), repeat=len(rest))):
-                    rep.ok('R15f', rt, fn, what, '`return true` for source == target: zero hops')
-                    continue
-            others = [a for a in atoms if a not in ('lt', 'eq', 'gt')]
-            for vals in itertools.product((False, True), repeat=len(others)):
-                envv = dict(zip(others, vals))
-                envv.update({'lt': False, 'eq': False, 'gt': True})
-                if ex.f_eval(f, envv):
-                    ok_all = False   # `return true` reachable with d_u > max_hops
-            if any(a in ('lt', 'eq', 'gt') for a in atoms) and ok_all:
-                # is the vertex found equal to the target the popped one, or a neighbour discovered from it (one hop further)?
-                nb = False
-                for (c_, pol_) in ex.ast_conditions(rt):
-                    for x in c_.walk():
-                        if x.k == 'BinaryOperator' and x.op in ('==', '!=') and tparam in (ex.var_of(x.c[0]), ex.var_of(x.c[1])):
-                            ov = ex.var_of(x.c[0]) if ex.var_of(x.c[1]) == tparam else ex.var_of(x.c[1])
-                            dv_ = ex.unique_def(fn, ov) if ov is not None else None
-                            if dv_ is not None and dv_.strip_all().k == 'CallExpr' and dv_.strip_all().callee and \
-                                    dv_.strip_all().callee['g'] in ('boost::target', 'boost::opposite', 'boost::source'):
-                                nb = True
+            if 's_is_t' in atoms and not reach(f, None, s_is_t=False) and not any(reach(f, r_, s_is_t=False) for r_ in REG):
+                rep.ok('R15f', rt, fn, what, '`return true` for source == target: zero hops')
+                continue
+            # is the vertex found equal to the target the popped one, or a neighbour discovered from it (one hop further)?
+            nb = False
+            for (c_, pol_) in ex.ast_conditions(rt):
+                for x in c_.walk():
+                    if x.k == 'BinaryOperator' and x.op in ('==', '!=') and tparam in (ex.var_of(x.c[0]), ex.var_of(x.c[1])):
+                        ov = ex.var_of(x.c[0]) if ex.var_of(x.c[1]) == tparam else ex.var_of(x.c[1])
+                        if neighbour_var(ov):
+                            nb = True
+            if has_regions(f):
                 if nb:
-                    # discovered vertex: needs d_u < max_hops
-                    bad_eq = False
-                    for vals in itertools.product((False, True), repeat=len(others)):
-                        envv = dict(zip(others, vals))
-                        envv.update({'lt': False, 'eq': True, 'gt': False})
-                        if ex.f_eval(f, envv):
-                            bad_eq = True
-                    if bad_eq:
+                    if not reach(f, 'E') and not reach(f, 'G'):
+                        rep.ok('R15f', rt, fn, what, '`return true` for a discovered neighbour is only reached with d_u < max_hops for the popped vertex')
+                        continue
+                    if not reach(f, 'G'):
                         rep.violation('R15f', rt, fn, what, '`return true` for a neighbour of the popped vertex is reachable when the popped vertex is exactly '
                                       'max_hops away: the target is then max_hops+1 hops away', key='R15f|%s|unbounded-true' % fn.g)
                         continue
-                rep.ok('R15f', rt, fn, what, '`return true` is only reached with d_u <= max_hops for the popped vertex')
-                continue
-            # alternative idiom: pushes are bounded
-            pushes = [x for x in fn.walk() if x.k == 'CXXMemberCallExpr' and x.callee and x.callee['name'] == 'push']
-            bounded = 0
-            for pu in pushes:
-                # the bound must hold for the *pushed* vertex: a guard on the popped vertex's distance d_u bounds the
-                # new distance d_u + 1 only if it is strict (d_u < max_hops)
+                elif not reach(f, 'G'):
+                    rep.ok('R15f', rt, fn, what, '`return true` is only reached with d_u <= max_hops for the popped vertex')
+                    continue
+            # alternative idiom: what is queued is bounded
+            src_pushes = [pu for pu in pushes if ex.var_of(pu.args()[0]) == sparam]
+            oth_pushes = [pu for pu in pushes if pu not in src_pushes]
+            allowed = ('A',) if nb else ('A', 'B')
+            witness, unknown = [], []
+            for pu in oth_pushes:
                 g = guards_formula(cfg, pu, atomize)
-                ats = ex.f_atoms(g)
-                if any(a in ('lt', 'eq', 'gt') for a in ats):
-                    def holds(which):
-                        import itertools
-                        others = [a for a in ats if a not in ('lt', 'eq', 'gt')]
-                        for vals in itertools.product((False, True), repeat=len(others)):
-                            envv = dict(zip(others, vals))
-                            envv.update({'lt': which == 'lt', 'eq': which == 'eq', 'gt': which == 'gt'})
-                            if ex.f_eval(g, envv):
-                                return True
-                        return False
-                    if not holds('gt') and not holds('eq'):
-                        bounded += 1
-            if pushes and bounded >= len(pushes) - 1 and bounded > 0:
-                rep.ok('R15f', rt, fn, what, 'vertices beyond the bound are never queued')
-            else:
+                if not has_regions(g):
+                    (unknown if opaque_atoms(g) else witness).append((pu, 'is not guarded by the hop bound'))
+                    continue
+                badr = [r_ for r_ in REG if r_ not in allowed and reach(g, r_)]
+                if badr:
+                    witness.append((pu, 'is reachable when the popped vertex is %s' % {'B': 'max_hops-1 away', 'E': 'exactly max_hops away', 'G': 'beyond max_hops'}[badr[0]]))
+            if nb:
+                for pu in src_pushes:
+                    g = guards_formula(cfg, pu, atomize)
+                    if reach(g, None, h0=True) if 'h0' in ex.f_atoms(g) else True:
+                        (unknown if opaque_atoms(g) else witness).append((pu, 'queues the source also for max_hops == 0'))
+            if not pushes:
+                rep.undecided('R15f', rt, fn, what, 'no queue push found')
+            elif not witness and not unknown:
+                rep.ok('R15f', rt, fn, what, 'every queued vertex is %s' % ('closer than max_hops, so a discovered neighbour is within the bound' if nb else 'within the bound'))
+            elif witness:
+                pu, why = witness[0]
                 rep.violation('R15f', rt, fn, what,
-                              '`return true` is reachable for a popped vertex whose distance exceeds max_hops (the hop cut-off is not '
-                              'tested before the target test): an edge whose endpoints are max_hops+1 apart is dropped',
+                              '`return true` (%s) is not guarded by the hop cut-off and the push at line %d %s: an edge whose endpoints are '
+                              'max_hops+1 apart is dropped' % ('discovered neighbour' if nb else 'popped vertex', pu.line, why),
                               key='R15f|%s|unbounded-true' % fn.g)
+            else:
+                rep.undecided('R15f', rt, fn, what, 'the push at line %d %s as far as recognised; its guards contain `%s`' % (
+                    unknown[0][0].line, unknown[0][1], fn.nodes[opaque_atoms(guards_formula(cfg, unknown[0][0], atomize))[0][1]].text(30)))
     return n
 
 
@@ -196,9 +225,12 @@ def run(rep, tier):
     rep.rule('R15f', 'bounded BFS answers true only within the hop bound', floor=1)
     rep.rule('R15g', 'hop counters of the bounded BFS are as wide as the hop bound', floor=1)
     n = 0
+    rep.rule('R07k', 'numeric_limits<T>::infinity() only for floating-point T (the hop counter combines with closed_plus<size_t>, whose closed value must not be 0)', floor=0)
+    from . import c07
     for prog in env.extract([env.witness_tu()], 'full').values():
         n += r15f(rep, prog)
         r15g(rep, prog)
+        c07.r07k(rep, prog)
     if n == 0:
         rep.analysis_broken('parmcb::is_bfs_reachable is not instantiated (anchor vanished)')
     r02h_bfs(rep)
